@@ -410,6 +410,32 @@ func run(c *mon.Ctx) {
 		}
 		c.Class(fmt.Sprintf("pmt-query/n=%d/removed=%d", n, len(gone)))
 	})
+	c.Floor("concurrent.calls", 20000)
+	c.Stream("concurrent-decoders", c.N(3, 150), func(i int, r *gen.Rand) {
+		c.Concurrent("PMT descriptor decoders / LookupPmtStreamType", 8, 1000, r, func(q *gen.Rand) string {
+			v := uint32(q.Intn(1 << 21))
+			d := psi.NewPmtDescriptor(0x0e, []byte{0xc0 | byte(v>>16), byte(v >> 8), byte(v)})
+			l := lang(q)
+			d2 := psi.NewPmtDescriptor(0x0a, append([]byte(l), byte(q.Intn(4))))
+			d3 := psi.NewPmtDescriptor(0x05, []byte{'D', 'O', 'V', 'I'})
+			code := byte(q.Intn(256))
+			st := psi.LookupPmtStreamType(code)
+			if g := d.DecodeMaximumBitRate(); g != v {
+				return fmt.Sprintf("DecodeMaximumBitRate = %d, encoded %d", g, v)
+			}
+			if g := d2.DecodeIso639LanguageCode(); g != l {
+				return fmt.Sprintf("DecodeIso639LanguageCode = %q, encoded %q", g, l)
+			}
+			if !d3.IsDolbyVision() {
+				return "a registration descriptor with format identifier DOVI is not recognised"
+			}
+			if st.StreamType() != code || st.StreamTypeDescription() == "" {
+				return fmt.Sprintf("LookupPmtStreamType(%#x) returned code %#x / description %q", code, st.StreamType(), st.StreamTypeDescription())
+			}
+			return ""
+		})
+		c.Class("concurrent-decoders")
+	})
 	c.Stream("own-tags", c.N(20000, 100000000), func(i int, r *gen.Rand) { own(c, r) })
 }
 
